@@ -76,6 +76,7 @@ func (c *conn) receiveClose(msg pmpx.Message) status.Status {
 		return status.OK
 	}
 	defer ch.free()
+	verifYield(10)
 
 	return ch.receive(msg)
 }
@@ -88,6 +89,7 @@ func (c *conn) receiveData(msg pmpx.Message) status.Status {
 	if !ok {
 		return status.OK
 	}
+	verifYield(4)
 	return ch.receive(msg)
 }
 
@@ -99,6 +101,7 @@ func (c *conn) receiveWindow(msg pmpx.Message) status.Status {
 	if !ok {
 		return status.OK
 	}
+	verifYield(4)
 	return ch.receive(msg)
 }
 
